@@ -468,12 +468,24 @@ class TraceSeam:
         self.visible = ("/simapp/", "/simlib/")
 
     def wrap(self, fn):
+        """Wrapper to install in place of fn.  It follows CPython's protocol: the function installed with settrace
+        gets the 'call' events; what it returns becomes that frame's local trace function and gets the frame's
+        other events; what a local trace function returns replaces it (None keeps it)."""
         if fn is None:
             return None
-        key = id(getattr(fn, "__self__", fn)), getattr(fn, "__name__", "")
+        key = self._key(fn)
         w = self.wrappers.get(key)
         if w is not None and w.inner == fn:
             return w
+        w = self._make(fn)
+        self.wrappers[key] = w
+        return w
+
+    @staticmethod
+    def _key(fn):
+        return id(getattr(fn, "__self__", fn)), getattr(fn, "__name__", "")
+
+    def _make(self, fn):
         seam = self
 
         def sim_trace_wrapper(frame, event, arg):
@@ -489,6 +501,8 @@ class TraceSeam:
                     raise
                 h = seam.on_raise
                 if h is not None:
+                    # CPython would now raise e in the traced code and switch tracing off for the thread; the harness
+                    # records that as a violation and keeps tracing so that the rest of the run stays observable
                     h(frame, event, arg, e)
                     return sim_trace_wrapper
                 raise
@@ -496,11 +510,19 @@ class TraceSeam:
             if p is not None:
                 p(frame, event, arg, r)
             if r is None:
-                return None
-            return sim_trace_wrapper
+                # for a 'call' event: the frame is not traced; for the others CPython keeps the current function
+                return None if event == "call" else sim_trace_wrapper
+            if r == fn:
+                return sim_trace_wrapper
+            # the agent handed back a different function for this frame: that one gets the frame's next events
+            key = seam._key(r)
+            w2 = seam.wrappers.get(key)
+            if w2 is None or w2.inner != r:
+                w2 = seam._make(r)
+                seam.wrappers[key] = w2
+            return w2
 
         sim_trace_wrapper.inner = fn
-        self.wrappers[key] = sim_trace_wrapper
         return sim_trace_wrapper
 
     @staticmethod
